@@ -535,6 +535,8 @@ pub fn comparator_axioms(ctx: &Ctx, tier: Tier) -> u64 {
             );
         }
     }
+    ctx.sample(json!({"comparator_axioms": "complete Element::cmp matrix", "universes": {"names": n_names, "containers-with-index": containers.len(), "parameter-values": params.len(), "references": refs.len(), "float-content": floats.len()}, "example_triple": ["a20", "a100", "a1b"]}));
+    ctx.assume("a comparator that is reflexive, antisymmetric and transitive on the universe, and equal only for identical keys, gives a sort result that does not depend on the previous order (the sort itself is std's stable sort)");
     ctx.count("comparator_universe_names", n_names as u64);
     ctx.count("comparator_universe_containers", containers.len() as u64);
     evals
